@@ -20,5 +20,11 @@ func notifyStop(p *os.Process) {
 	if err == nil {
 		pid = pgid * -1
 	}
+	// Not while a command is being started: a child that is between fork and
+	// exec still belongs to our process group, would take the signal with it
+	// into its own group and stay stopped there for good, and the forking
+	// thread would never return.
+	syscall.ForkLock.RLock()
 	unix.Kill(pid, syscall.SIGTSTP)
+	syscall.ForkLock.RUnlock()
 }
